@@ -301,14 +301,16 @@ class Walk:
         self.objects = {}  # model id -> list of dicts
         self.models = {}   # model id -> model node
         self.unroutable = 0
+        self.sole = {}     # position -> parallel to at[position]: did the value arrive here without passing a union that offered another member
 
-    def push(self, t, v, pos):
+    def push(self, t, v, pos, sole=True):
         self.at.setdefault(pos, []).append(v)
+        self.sole.setdefault(pos, []).append(sole)
         self.types[pos] = t
         k = kind(t)
         if k == "opt":
             if v is not None:
-                self.push(t.type, v, pos + ("O",))
+                self.push(t.type, v, pos + ("O",), sole)
             else:
                 self.types.setdefault(pos + ("O",), t.type)
                 self.at.setdefault(pos + ("O",), [])
@@ -322,17 +324,17 @@ class Walk:
                 self.types.setdefault(p, m)
                 self.at.setdefault(p, [])
             for i in targets:
-                self.push(t.types[i], v, pos + ("U%d" % i,))
+                self.push(t.types[i], v, pos + ("U%d" % i,), sole and len(targets) == 1)
         elif k in ("list", "dict"):
             p = pos + ("L" if k == "list" else "D",)
             self.types.setdefault(p, t.type)
             self.at.setdefault(p, [])
             if k == "list" and isinstance(v, list):
                 for e in v:
-                    self.push(t.type, e, p)
+                    self.push(t.type, e, p, sole)
             elif k == "dict" and isinstance(v, dict):
                 for e in v.values():
-                    self.push(t.type, e, p)
+                    self.push(t.type, e, p, sole)
             else:
                 self.unroutable += 1
         elif k in ("model", "ptr", "meta"):
@@ -349,7 +351,7 @@ class Walk:
                 self.types.setdefault(p, ft)
                 self.at.setdefault(p, [])
                 if name in v:
-                    self.push(ft, v[name], p)
+                    self.push(ft, v[name], p, sole)
             for key in v:
                 if key not in f:
                     self.unroutable += 1
